@@ -209,6 +209,9 @@ def main():
                                       or "IgnoreAttempt" in msg):
             v = r["verdict"] = "error"
             r["error"] = msg
+        if int(r.get("dropped") or 0) > 0:
+            harness_errors.append(f"{r['name']}: {r['dropped']} path(s) dropped because a native repr()/str() met a symbolic value "
+                                  "(harness message formatting) - a violation on such a path would go unreported")
         if r["kind"] == "twin":
             if v == "counterexample":
                 counts["twin_refuted"] += 1
